@@ -112,6 +112,14 @@ theorem numWG_typed_partial (g : Geo) (hv : g.Valid) :
   rw [nwg64_eq _ _ hv.gx, nwg64_eq _ _ hv.gy, nwg64_eq _ _ hv.gz]
   exact numWG_eq_produced g hv none
 
+/-- **wgs_enumerate_needs_valid.** The hypothesis `g.Valid` of `wgs_enumerate` / `numWG_eq_produced`
+    cannot be dropped: for the empty-axis grid 0×1×1 the closed-form count says one work-group
+    (`(0-1)/1+1` in `Nat`; 2^32 in the code's `uint32`), the cursor produces none. -/
+theorem wgs_enumerate_needs_valid :
+    (enumFrom ⟨0, 1, 1, 1, 1, 1⟩ (fun _ => true) 2 ⟨0, 0, 0⟩).1 = [] ∧
+    allWGs ⟨0, 1, 1, 1, 1, 1⟩ = [⟨(0, 0, 0), (0, 1, 1)⟩] ∧ nwg64 0 1 = 4294967296 := by
+  decide +kernel
+
 /-! ## non-vacuity -/
 
 /-- a large but legal launch (2^31-ish work-items, 8·2^20 work-groups) is inside the bound -/
